@@ -33,6 +33,7 @@ def explain (spec actual : Term.T) : String :=
   else if spec.row ≠ actual.row ∨ spec.col ≠ actual.col ∨ spec.pw ≠ actual.pw then
     s!"cursor: required ({spec.row},{spec.col},pw={spec.pw}), shown ({actual.row},{actual.col},pw={actual.pw})"
   else if spec.pen ≠ actual.pen then s!"pen: required {spec.pen.toString}, shown {actual.pen.toString}"
+  else if spec.link ≠ actual.link then s!"pen hyperlink: required {hexOfBytes spec.link}, shown {hexOfBytes actual.link}"
   else if spec.top ≠ actual.top ∨ spec.bottom ≠ actual.bottom then
     s!"margins: required {spec.top}..{spec.bottom}, shown {actual.top}..{actual.bottom}"
   else
